@@ -481,8 +481,15 @@ def correspondence(ctx):
     # --- which rows the fit sees and where it starts: get_p_th_nearest, get_p_th_sd_interp, the window branches
     #     of calculate_thresholds, apply_overrides (harness/props/c16_window.py)
     from harness.props import c16_window
-    streams.append(c16_window.stream_helpers(ctx))
-    streams.append(c16_window.stream_pipeline(ctx))
+    for builder, nm in ((c16_window.stream_helpers, 'window-helpers'), (c16_window.stream_pipeline, 'window-pipeline')):
+        try:
+            streams.append(builder(ctx))
+        except Exception as e:  # noqa: the implementation raised while the inputs were prepared
+            import traceback
+            st = Stream(nm)
+            st.mismatches.append({'stream': nm, 'op': '-', 'implementation': f'EXC {type(e).__name__}: {str(e)[:300]}',
+                                  'model': '-', 'input': traceback.format_exc()[-1200:]})
+            streams.append(st)
     return streams
 
 
@@ -667,7 +674,10 @@ def oracle_cases(ctx, deep):
     for inst in insts[:3]:
         cases.append({'class': 'row-order', 'instance': inst})
     from harness.props import c16_window
-    cases += c16_window.window_oracle_cases(ctx, deep)
+    try:
+        cases += c16_window.window_oracle_cases(ctx, deep)
+    except Exception as e:  # noqa: preparing these cases builds Analysis objects; their failure must not hide the rest
+        ctx.notes.append(f'window oracle cases not generated: {type(e).__name__}: {str(e)[:200]}')
     return cases
 
 
